@@ -37,22 +37,18 @@ def run_part(ctx, sample=None, race=False):
             if c["kind"] == "cancel" and len(r["got"]) == 1:
                 cancelled += 1
             continue
-        # reproduce alone (timing plays a part in which allowed sequence shows, never in whether it is allowed)
+        # re-run alone a few times (timing decides WHICH allowed sequence shows; a disallowed one may need the same luck
+        # again).  What the harness recorded is what the real matcher published - it read the merger itself - so the
+        # recorded observation stays the evidence if it does not recur.
         write_ndjson(cpath + ".1", [{k: v for k, v in c.items() if k != "expect"}])
-        ctx.run_harness(h, "TestVerifMatcherSchedules", env={"VERIF_CASES": cpath + ".1", "VERIF_OUT": opath + ".1"}, timeout=600)
-        r1 = read_ndjson(opath + ".1")[0]
-        if r1["got"] in allowed and not r1.get("timeout"):
-            # try a few more times before giving up on reproduction
-            again = None
-            for _ in range(5):
-                ctx.run_harness(h, "TestVerifMatcherSchedules", env={"VERIF_CASES": cpath + ".1", "VERIF_OUT": opath + ".1"}, timeout=600)
-                rr = read_ndjson(opath + ".1")[0]
-                if rr["got"] not in allowed or rr.get("timeout"):
-                    again = rr
-                    break
-            if again is None:
-                raise Infra("matcher schedule mismatch not reproduced: %s" % json.dumps(c)[:300])
-            r1 = again
+        r1 = r
+        for _ in range(6):
+            ctx.run_harness(h, "TestVerifMatcherSchedules", env={"VERIF_CASES": cpath + ".1", "VERIF_OUT": opath + ".1"}, timeout=600,
+                            allow_fail=race)
+            rr = read_ndjson(opath + ".1")
+            if rr and (rr[0]["got"] not in allowed or rr[0].get("timeout")):
+                r1 = rr[0]
+                break
         brief = [(p["q"], p["count"], len(p["ids"])) for p in r1["got"]]
         ctx.violation("matcher schedule %s: real matcher published %s%s; the specification allows only %s" % (
             json.dumps({k: v for k, v in c.items() if k not in ("expect",)}), brief, " (then nothing more: timeout)" if r1.get("timeout") else "",
